@@ -36,7 +36,7 @@ pub fn stmt_items() -> Vec<Item> {
     let mut out = Vec::new();
     let mut name: Option<String> = None;
     let mut body = String::new();
-    let mut flush = |name: &Option<String>, body: &str, out: &mut Vec<Item>| {
+    let flush = |name: &Option<String>, body: &str, out: &mut Vec<Item>| {
         if let Some(n) = name {
             out.push(Item {
                 id: format!("stmt.{}", n),
